@@ -50,7 +50,8 @@ def has_positional_call(text):
         if isinstance(n, ast.Call) and n.args:
             f = n.func
             name = f.id if isinstance(f, ast.Name) else (f.attr if isinstance(f, ast.Attribute) else None)
-            if name in ("Point", "FPoint", "Box", "APoint", "AFrozen", "NT", "TNT", "Cfg", "PModel", "APriv", "PAlias"):
+            if name in ("Point", "FPoint", "Box", "APoint", "AFrozen", "NT", "TNT", "Cfg", "PModel", "APriv", "PAlias", "Hidden", "AHidden", "PHidden",
+                        "PExtra"):
                 return True
     return False
 
